@@ -452,6 +452,7 @@ impl CanonicalRequest {
     requires
         self.wf(),
         auth_params.builder.credential is Some, auth_params.builder.signature is Some, //# C08 name=builder_complete_before_build
+        latin1_only(auth_params.timestamp_str@), //# C08 name=timestamp_text_is_latin1
     ensures
         iso_instant(str_bytes(auth_params.timestamp_str@)) is None ==> r is Err && r->Err_0 is IncompleteSignature, //# C13 C16 name=rule_9_bad_date_is_incomplete_signature
         iso_instant(str_bytes(auth_params.timestamp_str@)) is Some ==> r is Ok && {
@@ -466,7 +467,7 @@ impl CanonicalRequest {
 
     pub proof fn lemma_carrier_selected_builder(&self, p: AuthParams)
         requires self.carrier_selected(p)
-        ensures p.builder.credential is Some, p.builder.signature is Some
+        ensures p.builder.credential is Some, p.builder.signature is Some, latin1_only(p.timestamp_str@)
     {}
     /// rules 5-9 all pass and `a` carries exactly what the selected carrier supplied (C01, C05, C16, C19)
     pub open spec fn authenticator_ok(&self, always: Seq<Seq<u8>>, ifreq: Seq<Seq<u8>>, prefixes: Seq<Seq<u8>>, a: SigV4Authenticator) -> bool {
